@@ -98,6 +98,11 @@ pub fn check_case(tape: &[u16], rc: &mut RCase) -> Result<(), Failure> {
     let cfg = Cfg { mainnet: case.mainnet, ..Cfg::default() };
     let ev = evaluate(&case, &cfg);
     let rendered = || case_json(&case, &print_plain(&case.prog));
+    for alt in [6usize, 7, 127, 128, 129] {
+        if ev.source.contains(&format!(":: Case{} ", alt)) || ev.source.contains(&format!("::Case{} ", alt)) || ev.source.contains(&format!("::Case{}{{", alt)) {
+            rc.label(&format!("constructs:alternative_{}", alt));
+        }
+    }
     for f in case.features.iter().filter(|f| f.contains("spread")) {
         rc.label(&format!("feature:{}", f));
     }
@@ -236,7 +241,7 @@ pub fn run(tier: Tier, seed: u64) -> Report {
               >= 7, |integer| >= 2^63, nesting >= 3 or bytes > 64"
         .into();
     r.assumptions = vec!["placement of redeemers is C08's subject; quantities outside ledger fields are C02's".into()];
-    r.explore("wide_variants", tier.pick(40_000, 1_000_000), 700, &|t, rc| check_case(t, rc));
+    r.explore("wide_variants", tier.pick(40_000, 1_000_000), 3000, &|t, rc| check_case(t, rc));
     r
 }
 
